@@ -11,21 +11,26 @@ from harness import parser_common as pc
 ID = "C01"
 DESIGN_REF = "6/C01"
 LEAN_MODULES = ["Clikit.Props.C01"]
-REQUIRED_THEOREMS = ["Clikit.Props.C01.option_short_eq_long", "Clikit.Props.C01.argument_index_eq_name",
-                     "Clikit.Props.C01.option_default_when_absent", "Clikit.Props.C01.argument_default_when_absent",
-                     "Clikit.Props.C01.arguments_listing"]
+REQUIRED_THEOREMS = ["Clikit.Props.C01." + n for n in (
+    "parse_spells", "spellings_agree", "opt_single_last_wins", "opt_multi_in_order", "opt_without_value", "positional_kth",
+    "runSem_other_option", "option_short_eq_long", "argument_index_eq_name", "option_default_when_absent",
+    "argument_default_when_absent", "arguments_listing")]
 TECHNIQUE = ("Lean 4 model of DefaultArgsParser/Args with theorems about the token loop and the accessors + "
              "differential correspondence on generated formats x spellings, oracle re-deriving the intended assignment")
-LEVEL_TEXT = ("PARTIAL proof. Proved in Lean on the parser/Args model: access by long name, short name and position agree, "
-              "everything not given reports its default, listings contain exactly what was set (for every Args object and "
-              "format). The main claim - every spelling of an assignment parses to exactly that assignment in both modes - is "
-              "NOT yet a theorem: it is decided by the differential correspondence (real parser vs Lean model, strict and "
-              "lenient) plus an independent oracle that re-derives the intended assignment for generated formats x "
-              "assignments x spellings (all item kinds, grouped flags, interleaving, -- tail, command names by name/alias or "
-              "with a suffix omitted, base formats).")
+LEVEL_TEXT = ("Proved in Lean on the parser/Args model, for EVERY format, item list, spelling and both modes: parse_spells - "
+              "parsing any spelling of a list of items (positionals, --name=value, --name value, --name, --name=, -n, -nVALUE, "
+              "-n VALUE, groups -abc / -abnVALUE / -abn VALUE, any interleaving, then `--` and arbitrary tokens; side "
+              "conditions = the library's conventions) equals the token-free meaning of the items (each item updates the "
+              "state by itself: last occurrence wins, multi-values accumulate in order, the k-th positional goes to the k-th "
+              "argument, items never touch options they do not name) followed by parse()'s second half; hence two spellings "
+              "of the same items parse identically. Also proved: access by long name, short name and position agree, "
+              "everything not given reports its default. The model is tied to the code by differential runs (real parser vs "
+              "model vs the token-free meaning of the generated items, strict and lenient) and an independent oracle that "
+              "re-derives the intended assignment from the generator's intent.")
 LEVEL_NOTE = ("Trusted: Lean kernel + standard axioms; hand-written parser model tied by correspondence; the spelling generator "
-              "and the oracle's re-statement of 'intended assignment' (harness/parser_common.py, harness/props/c01.py). The "
-              "universal spelling theorem (DESIGN 6/C01 parse_spells) is open: sampled, not proved.")
+              "and the oracle (harness/parser_common.py, harness/props/c01.py). Not proved: the re-alignment against omitted "
+              "command names is part of the meaning (parseSem applies it) but is not characterised further by a theorem; "
+              "conversions use CPython int()/float() as tables.")
 RULE = ("formats (0-5 options of every mode x type x nullable x short presence, 0-4 arguments, 0-2 command names with "
         "aliases, with/without base) x assignment x one random spelling (long=, long sp, short attached, short sp, "
         "grouped flags, interleaving, -- tail, command names by name/alias or suffix omitted); non-trivial = at least "
@@ -71,15 +76,23 @@ def model_requests(case):
     # the flattened format is read from the real object: recompute it here (parent process)
     fmt = pc.build_format(case["spec"])
     flat = pc.flatten(fmt)
-    return [pc.model_request(flat, case["tokens"], False), pc.model_request(flat, case["tokens"], True)]
+    reqs = [pc.model_request(flat, case["tokens"], False), pc.model_request(flat, case["tokens"], True)]
+    # the token-free meaning of the same items (theorem parse_spells: parse(line) = parseSem(items))
+    for len_ in (False, True):
+        r = pc.model_request(flat, case["tokens"], len_, entry="c01.sem")
+        r["sems"] = case["intent"]["sems"]
+        reqs.append(r)
+    return reqs
 
 
 def model_obs(case, answers):
-    return {"strict": pc.canon_model_answer(answers[0]), "lenient": pc.canon_model_answer(answers[1])}
+    return {"strict": pc.canon_model_answer(answers[0]), "lenient": pc.canon_model_answer(answers[1]),
+            "meaning_strict": pc.canon_model_answer(answers[2]), "meaning_lenient": pc.canon_model_answer(answers[3])}
 
 
 def impl_view(case, obs):
-    return {"strict": obs["strict"], "lenient": obs["lenient"]}
+    return {"strict": obs["strict"], "lenient": obs["lenient"],
+            "meaning_strict": obs["strict"], "meaning_lenient": obs["lenient"]}
 
 
 # ---- the statement, re-derived independently --------------------------------------------------
